@@ -985,7 +985,7 @@ class Interp:
         add_processor counts for whatever the world keeps per insertion),
         then the ordinary history goes on."""
         n = op[1]
-        if self.depth or not self.enabled:
+        if self.depth:
             return 'skip'
         d = self.desper
         if not hasattr(self, 'Spam'):
@@ -997,6 +997,7 @@ class Interp:
             self.Spam = Spam
             self.spam = None
         w, Spam = self.w, self.Spam
+        resume = kernel.StepBudget.pause() if n > 10000 else (lambda: None)
         try:
             with kernel.budget(60 * n + OP_BUDGET):
                 for _ in range(n):
@@ -1004,6 +1005,8 @@ class Interp:
                 w.remove_processor(Spam)
         except SimHang as e:
             self.fail('C07', 'hang', f'{n} add_processor calls: {e}')
+        finally:
+            resume()
         self.probes['many_add_processor_calls'] += 1
         if n >= 2 ** 20:
             self.probes['add_processor_calls>=2**20'] += 1
@@ -1986,14 +1989,14 @@ def generate(prop, run_seed, tier='quick', tolerate=frozenset()):
         ops.append(['process', 1])
         sh.apply(ops[-1])
         n += len(ops)
+    spam = None
     if prop == 'C07':
         r_spam = crng.random()
-        if r_spam < .01 or (tier == 'thorough' and r_spam < .010012):
-            # a long life: very many add_processor calls before the history
-            ops.append(['spam_add', 2 ** 20 + 3 if r_spam >= .01
-                        else crng.choice([300, 5000])])
-            sh.apply(ops[-1])
-            n += 1
+        if r_spam < .01 or (tier == 'thorough' and r_spam < .01005):
+            # a long life: very many add_processor calls somewhere in the
+            # middle of the history
+            spam = ['spam_add', 2 ** 20 + 3 if r_spam >= .01
+                    else crng.choice([300, 5000])]
     tries = 0
     while len(ops) < n and tries < n * 6:
         tries += 1
@@ -2019,6 +2022,17 @@ def generate(prop, run_seed, tier='quick', tolerate=frozenset()):
                     if script:
                         scripts[f'proc:{pi}:{cnt}'] = script
         sh.apply(op)
+    if spam is not None:
+        # processors of different types registered before it with priorities
+        # one above those of processors registered after it
+        firsts = {}
+        for pi, pc in enumerate(cfg['pinsts']):
+            firsts.setdefault(pc, pi)
+        types = sorted(firsts.values())
+        before = [['add_proc', pi, q] for pi, q in zip(types[:2], (1, 3))]
+        after = [['add_proc', pi, q] for pi, q in zip(types[2:4], (0, 2))]
+        k = crng.randint(len(ops) // 3, len(ops))
+        ops[k:k] = before + [spam] + after + [['process', 1]]
     # re-entry from callbacks of a release (silent batches)
     if crng.random() < {'C02': .4, 'C05': .1, 'C01': .1}.get(prop, 0):
         hs = [i for i in range(len(cfg['insts']))]
